@@ -337,6 +337,13 @@ def run(ctx):
     rule_units_ops(ctx, py)
     rule_cmp_exact(ctx, py)
     rule_ctor_label(ctx, py)
+    # shared clauses: conversions used by the operators (C06: factor structure, dimension guard, argument order)
+    from ..core import borrow
+    from . import c06
+    borrow(ctx, "C05", c06.rule_keys, ctx.py)
+    borrow(ctx, "C05", c06.rule_dimguard, ctx.py)
+    borrow(ctx, "C05", c06.rule_eq3, ctx.py)
+    borrow(ctx, "C05", c06.rule_convert_args, ctx.py, "C05.ARGS-CONV")
     from .. import lints
     lints.run(ctx, "C05", ctx.py, ["units"], truth_floor=28)
     ctx.assume("value-level correctness of operand order and sign in reflected operators (v - self vs self - v) and "
